@@ -18,14 +18,14 @@ def run(tier: str, keep: bool = False) -> int:
     props = ["C12", "C10", "C15"]
     famS = ('Numbered({ [SoloBase(2, sl, n) EXCEPT !.mode = m, !.closure = c, !.chk = k] : sl \\in {1, 2}, n \\in {0, 1, 3}, '
             'm \\in {"ACK", "UNACK"}, c \\in BOOLEAN, k \\in {"CRC32", "CRC32C", "NULL"} })')
-    r.solo("srccancel", "S", famS, ["poll", "cancel", "cancelwrong", "ack", "nak"], 5 if q else 6, props, pre=[["put"]],
-           limit=6000 if q else 200000)
+    r.solo("srccancel", "S", famS, ["poll", "cancel", "cancelwrong", "ack", "nak"], 5, props, pre=[["put"]],
+           limit=6000 if q else 60000)
     r.solo("srcmdonly", "S", 'Numbered({ [SoloBase(2, 1, 0) EXCEPT !.mdOnly = TRUE, !.mode = m, !.closure = c] : m \\in {"ACK", "UNACK"}, '
                              'c \\in BOOLEAN })', ["poll", "cancel", "put"], 4, props, pre=[["put"]])
     famD = ('Numbered({ [SoloBase(2, 1, 3) EXCEPT !.mode = m, !.closure = c, !.disp = d, !.dstShape = sh, !.dstOld = <<9>>] : '
             'm \\in {"ACK", "UNACK"}, c \\in BOOLEAN, d \\in BOOLEAN, sh \\in {"file", "existing"} })')
     r.solo("dstcancel", "D", famD, ["fd", "eof", "eofcancel", "cancel", "cancelwrong", "poll", "ack"], 5 if q else 6, props, pre=[["md"]],
-           limit=6000 if q else 200000)
+           limit=6000 if q else 60000)
     pair = 'FamAll(3, {0, 1, 3}, {"CRC32", "NULL"})' if q else 'FamAll(3, {0, 1, 3, 4}, {"CRC32", "CRC32C", "NULL"})'
     r.schedules("cancelpoints", pair, props, K=0, cancels=["S", "D"], limit=900 if q else None)
     r.schedules("cancelK1", "FamAck(3, {3})", props, K=1, faults=["drop"], cancels=["S"], limit=400 if q else None)
